@@ -72,6 +72,70 @@ def dotted(node):
     return None
 
 
+def inline_locals(fnode, expr, depth=3):
+    """Copy of `expr` in which local names that have exactly one plain assignment in `fnode` (and are never augmented,
+    deleted, used as loop/with targets or parameters) are replaced by their (recursively inlined) value.  Makes
+    comparisons insensitive to 'introduce a temporary' refactorings."""
+    import copy
+    assigns, banned = {}, set()
+    a = fnode.args
+    for x in a.posonlyargs + a.args + a.kwonlyargs + ([a.vararg] if a.vararg else []) + ([a.kwarg] if a.kwarg else []):
+        banned.add(x.arg)
+    for st in ast.walk(fnode):
+        if isinstance(st, ast.Assign):
+            for t in st.targets:
+                if isinstance(t, ast.Name):
+                    assigns.setdefault(t.id, []).append(st.value)
+                else:
+                    for n in ast.walk(t):
+                        if isinstance(n, ast.Name) and isinstance(n.ctx, ast.Store):
+                            banned.add(n.id)
+        elif isinstance(st, (ast.AugAssign, ast.AnnAssign)):
+            for n in ast.walk(st.target):
+                if isinstance(n, ast.Name):
+                    banned.add(n.id)
+        elif isinstance(st, (ast.For, ast.AsyncFor)):
+            for n in ast.walk(st.target):
+                if isinstance(n, ast.Name):
+                    banned.add(n.id)
+        elif isinstance(st, (ast.With, ast.AsyncWith)):
+            for it in st.items:
+                if it.optional_vars is not None:
+                    for n in ast.walk(it.optional_vars):
+                        if isinstance(n, ast.Name):
+                            banned.add(n.id)
+        elif isinstance(st, ast.comprehension):
+            for n in ast.walk(st.target):
+                if isinstance(n, ast.Name):
+                    banned.add(n.id)
+        elif isinstance(st, ast.NamedExpr):
+            banned.add(st.target.id)
+    single = {k: v[0] for k, v in assigns.items() if len(v) == 1 and k not in banned}
+
+    class T(ast.NodeTransformer):
+        def __init__(self, d):
+            self.d = d
+
+        def visit_Name(self, node):
+            if isinstance(node.ctx, ast.Load) and node.id in single and self.d > 0:
+                v = copy.deepcopy(single[node.id])
+                # do not inline calls (they may have effects / fresh values) except pure path/arith helpers
+                if any(isinstance(x, (ast.Call, ast.Await, ast.Yield)) for x in ast.walk(v)):
+                    return node
+                return T(self.d - 1).visit(v)
+            return node
+    try:
+        return ast.fix_missing_locations(T(depth).visit(copy.deepcopy(expr)))
+    except Exception:
+        return expr
+
+
+def itext(fi_or_node, expr):
+    """unparse(expr) with single-assignment arithmetic temporaries of the enclosing function inlined."""
+    fnode = getattr(fi_or_node, "node", fi_or_node)
+    return unparse(inline_locals(fnode, expr))
+
+
 class FunctionInfo:
     def __init__(self, module, cls, node, outer=None):
         self.module = module
